@@ -172,6 +172,7 @@ def run(repo, res, tier):
 
     _c14ev.state_rule(repo, res)
     _c14ev.trajectory_type_rule(repo, res)
+    _c14ev.optional_metadata_rule(repo, res, "TAB-XSD")
 
     # ---------------------------------------------------------------- number formatting
     cse = wr.methods["_create_sub_element"]
